@@ -67,6 +67,15 @@ func c09Record(md goldmark.Markdown, cs c09Case) (rec map[string]interface{}, de
 		if e1 != nil || e2 != nil || e3 != nil || e4 != nil {
 			return nil, "", false
 		}
+		// the end of input counts as a line ending (CommonMark 2.1): a raw HTML block whose last
+		// source line has no terminator is rendered without one, in the concatenation it has one
+		nl := func(b []byte) []byte {
+			if len(b) > 0 && b[len(b)-1] != '\n' {
+				return append(append([]byte{}, b...), '\n')
+			}
+			return b
+		}
+		oa, oh, ob, oab = nl(oa), nl(oh), nl(ob), nl(oab)
 		la, lh, lbb, lab := outLines(oa), outLines(oh), outLines(ob), outLines(oab)
 		rec = map[string]interface{}{"law": "concat", "a": lb.seq(la), "h": lb.seq(lh), "b": lb.seq(lbb), "ab": lb.seq(lab)}
 		want := append(append(append([]string{}, la...), lh...), lbb...)
@@ -148,6 +157,15 @@ func runC09(c *Ctx) {
 	shortStrings(alpha, maxLen, func(s string) { shorts = append(shorts, s) })
 	extra := []string{"-\n  a", "- a\n-\n", "-\n\n  a", "1.\n   a", "- a\n\n  b", "```\na\n```", "    a", ">\n> a", "a\n---", "- a\n  - b\n\n  c"}
 	shorts = append(shorts, extra...)
+	// scaled documents: a pattern repeated N times for EVERY N up to 260 (size thresholds of
+	// internal buffers and statistics), each against a few second documents
+	var scaledA []string
+	for _, p := range []string{"- a\n", "> a\n", "a\n\n", "1. a\n", "- a\n  - b\n", "- a\n\n", "a\n", "- a\n\n  b\n"} {
+		for n := 1; n <= c.Pick(260, 1100); n++ {
+			scaledA = append(scaledA, strings.Repeat(p, n))
+		}
+	}
+	scaledB := []string{"- x\n\n- y\n", "- x\n- y\n", "> q\n\n> r\n", "1. x\n\n   y\n", "- x\n\n  - y\n  - z\n"}
 	ev.Set("short_strings", len(shorts))
 	for i, a := range shorts {
 		for j, b := range shorts {
@@ -176,6 +194,11 @@ func runC09(c *Ctx) {
 	for i := 0; i < c.Pick(40000, 600000); i++ {
 		add(c09Case{Kind: "concat", A: rawDoc(pool[rng.Intn(len(pool))]), B: rawDoc(pool[rng.Intn(len(pool))])}, i%len(cfgs))
 	}
+	for i, a := range scaledA {
+		for j, b := range scaledB {
+			add(c09Case{Kind: "concat", A: rawDoc(a), B: rawDoc(b)}, (i+j)%len(cfgs))
+		}
+	}
 	// definition mobility
 	var bases []string
 	for i := 0; i < c.Pick(600, 8000); i++ {
@@ -186,6 +209,9 @@ func runC09(c *Ctx) {
 		}
 	}
 	bases = append(bases, "", "x\n", "> q\n", "- l\n", "a\n===\n")
+	for i := 0; i < len(scaledA); i += 3 {
+		bases = append(bases, scaledA[i]+"\n- x\n\n- y\n") // a loose list after a scaled prefix
+	}
 	for bi, base := range bases {
 		for di, defs := range c09DefSpellings {
 			ref := c09RefSpellings[(bi+di)%len(c09RefSpellings)]
